@@ -279,17 +279,6 @@ def spliceBeforeTypeDecl : Nat → Val → (Val → Option Val) → Option Val
       if t.isCls .TypeDecl then (f t).bind fun t' => d.setAttr "type" t'
       else (spliceBeforeTypeDecl fuel t f).bind fun t' => d.setAttr "type" t'
 
-mutual
-def Val.size : Val → Nat
-  | .none => 1
-  | .str _ => 1
-  | .list vs => 1 + Val.sizeL vs
-  | .node _ _ fs => 1 + Val.sizeL fs
-def Val.sizeL : List Val → Nat
-  | [] => 0
-  | v :: vs => v.size + Val.sizeL vs
-end
-
 def typeModifyDecl (decl modifier : Val) : P Val :=
   let fuel := decl.size + modifier.size + 1
   if decl.isCls .TypeDecl then
